@@ -24,7 +24,7 @@ var initAllow = map[string]bool{
 	"errors": false, "io": true, "bufio": true, "bytes": true, "strings": true, "strconv": true,
 	"unicode": true, "unicode/utf8": true, "sort": true, "slices": true, "math": true,
 	"math/bits": true, "cmp": true, "encoding/csv": true, "path/filepath": false, "io/fs": false,
-	"maps": true, "container/heap": true, "math/rand": false, "unicode/utf16": true,
+	"maps": true, "container/heap": true, "math/rand": true, "unicode/utf16": true,
 }
 
 // packages whose functions return zero values while package initialisers run
